@@ -131,6 +131,72 @@ func claimFacts(ctx *Ctx, b *strings.Builder) {
 		}
 		rollback = clears(fd.Body, recv, 0)
 	}
+	// the end of a stopped loop: does the loop clear the flag when it takes the stop request, and
+	// does the goroutine that Start spawns around the loop clear it again unconditionally (outside
+	// any if) after the loop has returned? Both together is the double clear of D30.
+	stopBranchClears, wrapperClearsAlways := false, false
+	if fd := methods["serveUpdates"]; fd != nil {
+		_, recv := recvName(fd)
+		ast.Inspect(fd.Body, func(x ast.Node) bool {
+			if cc, ok := x.(*ast.CommClause); ok && cc.Comm != nil {
+				recvFromStop := false
+				ast.Inspect(cc.Comm, func(y ast.Node) bool {
+					if ue, ok := y.(*ast.UnaryExpr); ok && ue.Op.String() == "<-" && isSel(ue.X, recv, "stopCh") {
+						recvFromStop = true
+					}
+					return true
+				})
+				if recvFromStop {
+					for _, st := range cc.Body {
+						if clears(st, recv, 0) {
+							stopBranchClears = true
+						}
+					}
+				}
+			}
+			return true
+		})
+	}
+	if fd := methods["Start"]; fd != nil {
+		_, recv := recvName(fd)
+		ast.Inspect(fd.Body, func(x ast.Node) bool {
+			gs, ok := x.(*ast.GoStmt)
+			if !ok {
+				return true
+			}
+			fl, ok := gs.Call.Fun.(*ast.FuncLit)
+			if !ok {
+				return true
+			}
+			runsLoop := false
+			ast.Inspect(fl.Body, func(y ast.Node) bool {
+				if c, ok := y.(*ast.CallExpr); ok && isSel(c.Fun, recv, "serveUpdates") {
+					runsLoop = true
+				}
+				return true
+			})
+			if runsLoop {
+				for _, st := range fl.Body.List {
+					callsLoop := false
+					ast.Inspect(st, func(y ast.Node) bool {
+						if c, ok := y.(*ast.CallExpr); ok && isSel(c.Fun, recv, "serveUpdates") {
+							callsLoop = true
+						}
+						return true
+					})
+					if callsLoop {
+						continue // the loop itself (its own clear is the first one)
+					}
+					if _, isIf := st.(*ast.IfStmt); !isIf && clears(st, recv, 0) {
+						wrapperClearsAlways = true
+					}
+				}
+			}
+			return true
+		})
+	}
+	b.WriteString("(* agent/agent.go: a loop that takes a stop request clears a.started; the goroutine around the loop does NOT clear it again unconditionally (D30) *)\n")
+	fmt.Fprintf(b, "Definition agent_stopped_loop_clears_flag_twice : bool := %v.\n", stopBranchClears && wrapperClearsAlways)
 	b.WriteString("(* agent/agent.go Start: test-and-set of a.started in one stretch holding a.mu (in Start or in the helper whose refusal ends it); a failed start clears it *)\n")
 	fmt.Fprintf(b, "Definition agent_start_test_and_set_atomic : bool := %v.\n", atomic)
 	fmt.Fprintf(b, "Definition agent_start_gives_claim_back : bool := %v.\n\n", rollback)
